@@ -1,5 +1,6 @@
 import JobShopModel.Env
-import JobShopProofs.Properties.C17
+import JobShopProofs.EnvInv4
+import JobShopProofs.Properties.C19
 /-!
 # C18 — the environments honour the Gymnasium contract
 -/
@@ -41,5 +42,331 @@ theorem C18_done_truncated (e : Env) (job : Nat) (machine : Int) (obs : EObs) (r
     d = isComplete (e.step job machine).1.w.cfg.I (e.step job machine).1.w.s ∧ t = false := by
   obtain ⟨w', _, he, _, _, hd, ht, _⟩ := Env.step_ok h
   rw [he]; exact ⟨hd, ht⟩
+
+/-- environments the properties talk about: built by the constructor from a valid configuration, then stepped and
+reset any number of times -/
+inductive EnvEv
+  | step (job : Nat) (machine : Int)
+  | reset
+deriving Repr, DecidableEq
+
+def Env.apply (e : Env) : EnvEv → Env
+  | .step j m => (e.step j m).1
+  | .reset => e.reset.1
+
+def Env.runEvs (e : Env) (evs : List EnvEv) : Env := evs.foldl Env.apply e
+
+theorem Env.runEvs_envOK {e : Env} (h : EnvOK e) (evs : List EnvEv) : EnvOK (e.runEvs evs) := by
+  induction evs generalizing e with
+  | nil => exact h
+  | cons ev t ih =>
+    simp only [Env.runEvs, List.foldl_cons]
+    apply ih
+    cases ev with
+    | step j m => exact Env.step_envOK h j m
+    | reset => exact Env.reset_envOK h
+
+theorem Env.step_cases (e : Env) (job : Nat) (machine : Int) :
+    ((e.step job machine).2 = .raised ∧ (e.step job machine).1 = e) ∨
+    (∃ w', (e.step job machine).1 = { e with w := w' } ∧
+      (((e.step job machine).2 = .raised ∧ ({ e with w := w' } : Env).observation = none) ∨
+       ∃ obs r d t av, (e.step job machine).2 = .ok obs r d t av ∧ ({ e with w := w' } : Env).observation = some obs)) := by
+  unfold Env.step
+  by_cases h1 : job ≥ e.w.cfg.I.length
+  · simp only [if_pos h1]; exact Or.inl ⟨trivial, trivial⟩
+  · simp only [if_neg h1]
+    by_cases h2 : e.w.s.jobIdx.getD job 0 ≥ (e.w.cfg.I.getD job []).length
+    · simp only [if_pos h2]; exact Or.inl ⟨trivial, trivial⟩
+    · simp only [if_neg h2]
+      rcases hd : e.w.dispatch job (e.w.s.jobIdx.getD job 0) (if machine == -1 then none else some machine) with ⟨w', b⟩
+      cases b with
+      | false => exact Or.inl ⟨rfl, rfl⟩
+      | true =>
+        simp only
+        cases ho : ({ e with w := w' } : Env).observation with
+        | none => exact Or.inr ⟨w', rfl, Or.inl ⟨rfl, ho⟩⟩
+        | some o => exact Or.inr ⟨w', rfl, Or.inr ⟨_, _, _, _, _, rfl, ho⟩⟩
+
+theorem Env.step_ec (e : Env) (j : Nat) (m : Int) : (e.step j m).1.ec = e.ec ∧ (e.step j m).1.space = e.space := by
+  rcases Env.step_cases e j m with ⟨_, h⟩ | ⟨w', h, _⟩
+  · rw [h]; exact ⟨rfl, rfl⟩
+  · rw [h]; exact ⟨rfl, rfl⟩
+
+theorem Env.runEvs_ec (e : Env) (evs : List EnvEv) : (e.runEvs evs).ec = e.ec ∧ (e.runEvs evs).space = e.space := by
+  induction evs generalizing e with
+  | nil => exact ⟨rfl, rfl⟩
+  | cons ev t ih =>
+    simp only [Env.runEvs, List.foldl_cons]
+    obtain ⟨a, b⟩ := ih (e := e.apply ev)
+    simp only [Env.runEvs] at a b
+    cases ev with
+    | step j m => exact ⟨a.trans (Env.step_ec e j m).1, b.trans (Env.step_ec e j m).2⟩
+    | reset => exact ⟨a, b⟩
+
+theorem padEnd_spec {α} (l : List α) (n : Nat) (v : α) (h : l.length ≤ n) :
+    padEnd l n v = some (l ++ List.replicate (n - l.length) v) := by
+  unfold padEnd; rw [if_neg (by omega)]
+
+/-- the observation of an environment satisfying the invariant -/
+theorem EnvOK.observation_spec {e : Env} (h : EnvOK e) (hpad : e.ec.usePadding = true) :
+    ∃ o, e.observation = some o ∧ e.space.containsObs o = true ∧
+      o.removed = e.graph.removed ∧
+      o.edgeIndex = (e.graph.edges.map fun x => ((x.1 : Int), (x.2.1 : Int))) ++
+        List.replicate (e.space.nEdges - e.graph.edges.length) (-1, -1) := by
+  obtain ⟨ou, hou, hku, hn, hed⟩ := h.upd
+  obtain ⟨hg, hsz, _⟩ := (h.heap _ ou hou).res hku
+  obtain ⟨oc, hoc, hkc, hfeat⟩ := h.comp
+  have hgr : e.graph = ou.graph := by unfold Env.graph; rw [getD_of_some hou]
+  have hle : e.graph.edges.length ≤ e.space.nEdges := by rw [hgr, ← hed]; exact hsz.edges
+  have hnodes : e.graph.nodes.length = e.space.nNodes := by rw [hgr, hsz.nodes, hn]
+  refine ⟨{ removed := e.graph.removed,
+             edgeIndex := (e.graph.edges.map fun x => ((x.1 : Int), (x.2.1 : Int))) ++
+               List.replicate (e.space.nEdges - e.graph.edges.length) (-1, -1),
+             feats := oc.cols }, ?_, ?_, rfl, rfl⟩
+  · unfold Env.observation
+    simp only [hpad, ↓reduceIte]
+    rw [padEnd_spec _ _ _ (by simpa using hle)]
+    simp only [Option.map_some, List.length_map, getD_of_some hoc]
+  · rw [hgr] at hle hnodes ⊢
+    simp only [Space.containsObs, Bool.and_eq_true, beq_iff_eq, List.all_eq_true, decide_eq_true_eq,
+      List.length_append, List.length_map, List.length_replicate, getD_of_some hoc]
+    refine ⟨⟨⟨⟨?_, by omega⟩, ?_⟩, ?_⟩, ?_⟩
+    · rw [hg.lenR]; exact hnodes
+    · intro uv huv
+      rcases List.mem_append.1 huv with h1 | h1
+      · obtain ⟨x, hx, rfl⟩ := List.mem_map.1 h1
+        obtain ⟨hp1, hp2⟩ := C17_no_dangling_edges hg x hx
+        simp only [Graph.present, Bool.and_eq_true, decide_eq_true_eq] at hp1 hp2
+        refine ⟨⟨⟨by omega, ?_⟩, by omega⟩, ?_⟩
+        · have := hp1.1; omega
+        · have := hp2.1; omega
+      · obtain ⟨_, rfl⟩ := List.mem_replicate.1 h1
+        simp only
+        refine ⟨⟨⟨by omega, by omega⟩, by omega⟩, by omega⟩
+    · -- feature matrices have the declared shapes
+      obtain ⟨hp, hcols, hall⟩ := (h.heap _ oc hoc).comp hkc
+      have hsh : ∀ o ∈ oc.parts.filterMap (fun i => hp[i]?), o.Shaped e.w.cfg.I := by
+        intro o ho
+        obtain ⟨i, hi, hio⟩ := List.mem_filterMap.1 ho
+        obtain ⟨p, q, hpi, _, _, hps, _⟩ := hall i hi
+        rw [hpi] at hio; cases hio; exact hps
+      rw [hcols, (compositeCols_shape hp oc.parts hsh).1, hfeat]
+      congr 1
+      have : ∀ (l : List Nat), (∀ i ∈ l, i ∈ oc.parts) →
+          (l.filterMap fun i => hp[i]?).map (·.fts) = (l.filterMap fun i => e.w.heap[i]?).map (·.fts) := by
+        intro l
+        induction l with
+        | nil => intro _; rfl
+        | cons a t ih =>
+          intro hsub
+          obtain ⟨p, q, hpi, hqi, _, _, hfq⟩ := hall a (hsub a (by simp))
+          simp only [List.filterMap_cons, hpi, hqi, List.map_cons, hfq]
+          rw [ih (fun i hi => hsub i (by simp [hi]))]
+      exact this _ (fun _ h => h)
+    · obtain ⟨hp, hcols, hall⟩ := (h.heap _ oc hoc).comp hkc
+      have hsh : ∀ o ∈ oc.parts.filterMap (fun i => hp[i]?), o.Shaped e.w.cfg.I := by
+        intro o ho
+        obtain ⟨i, hi, hio⟩ := List.mem_filterMap.1 ho
+        obtain ⟨p, q, hpi, _, _, hps, _⟩ := hall i hi
+        rw [hpi] at hio; cases hio; exact hps
+      intro tc htc col hcol
+      rw [hcols] at htc
+      exact (compositeCols_shape hp oc.parts hsh).2 tc htc col hcol
+
+/-- **C18 (observations, single environment).** For every instance, filter, graph builder, residual-updater options,
+reward and list of feature-observer configurations for which the constructor succeeds, after any sequence of steps
+(legal or rejected) and resets, with padding on: the observation exists, belongs to the declared observation space
+(mask of the declared length, edge index of the declared width with entries in `[-1, nodes)`, every feature matrix
+of the declared shape), its mask is the current graph's, and its edge index is the current graph's edge list followed
+only by `(-1, -1)` columns. -/
+theorem C18_observation_in_space (c : Cfg) (ec : EnvCfg) (e0 : Env) (hf : FeatsOK ec.feats) (hpad : ec.usePadding = true)
+    (hmk : Env.make c ec = some e0) (evs : List EnvEv) :
+    let e := e0.runEvs evs
+    ∃ o, e.observation = some o ∧ e.space = e0.space ∧ e0.space.containsObs o = true ∧
+      o.removed = e.graph.removed ∧
+      o.edgeIndex = (e.graph.edges.map fun x => ((x.1 : Int), (x.2.1 : Int))) ++
+        List.replicate (e0.space.nEdges - e.graph.edges.length) (-1, -1) := by
+  intro e
+  obtain ⟨hok, _, hec⟩ := Env.make_envOK hf hmk
+  have hrun := Env.runEvs_envOK hok evs
+  obtain ⟨hec', hsp'⟩ := Env.runEvs_ec e0 evs
+  obtain ⟨o, h1, h2, h3, h4⟩ := hrun.observation_spec (by rw [hec', hec]; exact hpad)
+  exact ⟨o, h1, hsp', hsp' ▸ h2, h3, hsp' ▸ h4⟩
+
+/-- **C18 (a step never fails for lack of room).** An accepted dispatch always yields an observation: the residual
+graph only shrinks, so it always fits the declared edge-index width. -/
+theorem C18_step_returns_observation (c : Cfg) (ec : EnvCfg) (e0 : Env) (hf : FeatsOK ec.feats) (hpad : ec.usePadding = true)
+    (hmk : Env.make c ec = some e0) (evs : List EnvEv) (job : Nat) (machine : Int) :
+    let e := e0.runEvs evs
+    (∃ obs r d t av, (e.step job machine).2 = .ok obs r d t av ∧ e0.space.containsObs obs = true) ∨
+    ((e.step job machine).2 = .raised ∧ (e.step job machine).1 = e) := by
+  intro e
+  have hobs := C18_observation_in_space c ec e0 hf hpad hmk (evs ++ [.step job machine])
+  simp only [Env.runEvs, List.foldl_append, List.foldl_cons, List.foldl_nil, Env.apply] at hobs
+  obtain ⟨o, ho, _, hin, _⟩ := hobs
+  change (Env.step e job machine).1.observation = some o at ho
+  rcases Env.step_cases e job machine with h | ⟨w', hw', h | ⟨obs, r, d, t, av, hok, hobs'⟩⟩
+  · exact Or.inr h
+  · rw [hw', h.2] at ho; cases ho
+  · rw [hw', hobs'] at ho; cases ho
+    exact Or.inl ⟨_, _, _, _, _, hok, hin⟩
+
+/-- **C18 (legal decisions).** In every reachable state every legal decision — a job with operations left together
+with an eligible machine id, or `-1` for a single-machine operation — belongs to the declared action space
+`MultiDiscrete([J, M + 1], start=[0, -1])`. -/
+theorem C18_legal_action_in_space (c : Cfg) (ec : EnvCfg) (e0 : Env) (hf : FeatsOK ec.feats)
+    (hmk : Env.make c ec = some e0) (evs : List EnvEv) (job : Nat) (machine : Int)
+    (hlegal : (e0.runEvs evs).legal job machine = true) :
+    e0.space.containsAction job machine = true := by
+  obtain ⟨hok, _, _⟩ := Env.make_envOK hf hmk
+  have hrun := Env.runEvs_envOK hok evs
+  obtain ⟨_, hsp⟩ := Env.runEvs_ec e0 evs
+  have hact := hrun.act
+  rw [hsp] at hact
+  generalize e0.runEvs evs = e at *
+  unfold Env.legal at hlegal
+  cases hop : getOp e.w.cfg.I job (e.w.s.jobIdx.getD job 0) with
+  | none => rw [hop] at hlegal; cases hlegal
+  | some op =>
+    rw [hop] at hlegal
+    have hjob : job < e.w.cfg.I.length := by
+      unfold getOp at hop
+      cases hj : e.w.cfg.I[job]? with
+      | none => simp [hj] at hop
+      | some jb => exact (List.getElem?_eq_some_iff.1 hj).1
+    simp only [Space.containsAction, Bool.and_eq_true, decide_eq_true_eq, hact.1, hact.2]
+    by_cases hm : (machine == -1) = true
+    · have : machine = -1 := by simpa using hm
+      subst this
+      refine ⟨⟨⟨by omega, by omega⟩, by omega⟩, by omega⟩
+    · simp only [hm, Bool.false_eq_true, ↓reduceIte, Bool.and_eq_true, decide_eq_true_eq, List.contains_iff_mem] at hlegal
+      have hlt := machine_lt e.w.cfg.I job _ machine.toNat op hop hlegal.2
+      refine ⟨⟨⟨by omega, by omega⟩, by omega⟩, by omega⟩
+
+
+/-! ## the multi-instance environment -/
+
+theorem padEnd_some {α} {l l' : List α} {n : Nat} {v : α} (h : padEnd l n v = some l') :
+    l' = l ++ List.replicate (n - l.length) v ∧ l'.length = n := by
+  unfold padEnd at h
+  split at h
+  · cases h
+  · cases h
+    refine ⟨rfl, ?_⟩
+    simp only [List.length_append, List.length_replicate]; omega
+
+/-- **C18 (padding of the multi environment).** When padding succeeds, the mask and the edge index are the single
+environment's followed only by the declared fill values (`True`, `(-1, -1)`), and they have the declared lengths. -/
+theorem C18_padObs (sp : Space) (o o' : EObs) (h : padObs sp o = some o') :
+    o'.removed = o.removed ++ List.replicate (sp.nNodes - o.removed.length) true ∧ o'.removed.length = sp.nNodes ∧
+    o'.edgeIndex = o.edgeIndex ++ List.replicate (sp.nEdges - o.edgeIndex.length) (-1, -1) ∧
+    o'.edgeIndex.length = sp.nEdges ∧ o'.feats.map (·.1) = o.feats.map (·.1) := by
+  unfold padObs at h
+  cases hr : padEnd o.removed sp.nNodes true with
+  | none => rw [hr] at h; simp at h
+  | some rm =>
+    cases he : padEnd o.edgeIndex sp.nEdges (-1, -1) with
+    | none => rw [hr, he] at h; simp at h
+    | some ei =>
+      rw [hr, he] at h
+      simp only at h
+      cases hfs : o.feats.mapM (padFeat sp) with
+      | none => rw [hfs] at h; cases h
+      | some fs =>
+        rw [hfs] at h
+        simp only [Option.map_some, Option.some.injEq] at h
+        subst h
+        obtain ⟨a1, a2⟩ := padEnd_some hr
+        obtain ⟨b1, b2⟩ := padEnd_some he
+        refine ⟨a1, a2, b1, b2, ?_⟩
+        simp only
+        -- keys are kept by the element-wise padding
+        have hkey : ∀ a b, padFeat sp a = some b → b.1 = a.1 := by
+          intro a b hab
+          unfold padFeat at hab
+          split at hab
+          · cases hab
+          · cases hpm : padMatrix a.2 _ _ with
+            | none => rw [hpm] at hab; cases hab
+            | some mtx => rw [hpm] at hab; cases hab; rfl
+        have : ∀ (l : List (FT × List (List Int))) (fs : List (FT × List (List Int))),
+            l.mapM (padFeat sp) = some fs → fs.map (·.1) = l.map (·.1) := by
+          intro l
+          induction l with
+          | nil => intro fs h; simp at h; subst h; rfl
+          | cons a t ih =>
+            intro fs h
+            rw [List.mapM_cons] at h
+            cases hfa : padFeat sp a with
+            | none => simp [hfa] at h
+            | some b =>
+              cases ht : t.mapM (padFeat sp) with
+              | none => simp [hfa, ht] at h
+              | some fs' =>
+                simp [hfa, ht] at h
+                subst h
+                simp only [List.map_cons, ih fs' ht, hkey a b hfa]
+        exact this _ _ hfs
+
+/-- **C18 (episodes of the multi environment).** A reset that returns an observation leaves the generator
+parameters, the configuration, the filter and the declared spaces as the constructor set them, draws the new
+instance from the generator (so it satisfies every clause of C19's shape theorem), and builds the episode's
+environment with exactly the constructor's configuration. -/
+theorem C18_multi_reset_config (m : MultiEnv) (o : EObs) (hf : FeatsOK m.ec.feats) (h : m.reset.2 = some o) :
+    m.reset.1.p = m.p ∧ m.reset.1.ec = m.ec ∧ m.reset.1.F = m.F ∧ m.reset.1.space = m.space ∧
+    ∃ I n gs', m.gs.next m.p = .ok (I, n, gs') ∧ m.reset.1.gs = gs' ∧
+      m.reset.1.env.w.cfg = { I := I, F := m.F } ∧
+      m.reset.1.env.ec = { m.ec with usePadding := m.env.ec.usePadding } := by
+  unfold MultiEnv.reset at h ⊢
+  cases hg : m.gs.next m.p with
+  | error e => rw [hg] at h; cases h
+  | ok r =>
+    obtain ⟨I, n, gs'⟩ := r
+    rw [hg] at h
+    simp only at h ⊢
+    cases hmk : Env.make { I := I, F := m.F } { m.ec with usePadding := m.env.ec.usePadding } with
+    | none => rw [hmk] at h; cases h
+    | some env =>
+      rw [hmk] at h
+      simp only at h ⊢
+      obtain ⟨hok, hcfg, hec⟩ := Env.make_envOK (c := { I := I, F := m.F }) (ec := { m.ec with usePadding := m.env.ec.usePadding }) hf hmk
+      have hrcfg : env.reset.1.w.cfg = { I := I, F := m.F } := by
+        unfold Env.reset
+        simp only
+        rw [(reset_ok' hok.heap).2.cfg, hcfg]
+      cases hob : env.reset.2 with
+      | none => rw [hob] at h; cases h
+      | some ob =>
+        have hec' : env.reset.1.ec = { m.ec with usePadding := m.env.ec.usePadding } := hec
+        exact ⟨by simp, by simp, by simp, by simp, I, n, gs', by simp, by simp, by simpa using hrcfg, by simpa using hec'⟩
+
+/-- the instances of the episodes lie within the generator's ranges (C19's shape theorem applies verbatim) -/
+theorem C18_multi_instance_in_ranges (m : MultiEnv) (I : Instance) (n : Nat) (gs' : GenState)
+    (h : m.gs.next m.p = .ok (I, n, gs')) :
+    m.p.jobsRange.1 ≤ I.length ∧ I.length ≤ m.p.jobsRange.2 ∧
+    ∃ nm, m.p.machinesRange.1 ≤ nm ∧ nm ≤ m.p.machinesRange.2 ∧ (m.p.allowLess = false → nm ≤ I.length) ∧
+      ∀ job ∈ I, job.length = nm ∧ ∀ op ∈ job, OpShape m.p nm op := by
+  unfold GenState.next at h
+  cases hg : generate m.p m.gs.draws with
+  | error e => rw [hg] at h; cases h
+  | ok r =>
+    obtain ⟨I', nm, d⟩ := r
+    rw [hg] at h
+    simp only [Except.ok.injEq, Prod.mk.injEq] at h
+    obtain ⟨rfl, _, _⟩ := h
+    obtain ⟨a, b, c, d', e, f⟩ := C19_shape m.p m.gs.draws I' nm d hg
+    exact ⟨a, b, nm, c, d', e, fun job hj => ⟨(f job hj).1, (f job hj).2.1⟩⟩
+
+/-! non-vacuity: a concrete environment, an episode, a reset -/
+example :
+    let c : Cfg := { I := exampleInstance, F := some [.dominated] }
+    let ec : EnvCfg := { builder := .agentTask, feats := [(.isReady, none), (.duration, some [.machines, .operations]),
+      (.isCompleted, some [.jobs])] }
+    (Env.make c ec).isSome = true ∧ FeatsOK ec.feats := by
+  constructor
+  · decide
+  · intro kf hkf l hl
+    simp only [List.mem_cons, List.mem_nil_iff, or_false] at hkf
+    rcases hkf with rfl | rfl | rfl <;> simp at hl <;> subst hl <;> decide
 
 end JS
